@@ -172,6 +172,91 @@ fn cell(idx: u64, seed: u64, variant: u64, rec: &mut Rec) {
     check_verdict(&d, &truth, rec, "C10");
 }
 
+/// Opt-in truncated redirects: the message boundary is lost, so whatever Connection field the
+/// truncated head carries, the connection must never be offered for reuse.
+fn partial_redirect_cell(idx: u64, rec: &mut Rec) {
+    use ureq_proto::client::flow::RecvResponseResult;
+    let mut x = idx as usize;
+    let mut take = |n: usize| {
+        let v = x % n;
+        x /= n;
+        v
+    };
+    let method = ["GET", "POST", "HEAD"][take(3)];
+    let status = [301u16, 302, 307, 308][take(4)];
+    const KA: &[u8] = b"keep-alive";
+    const CL: &[u8] = b"close";
+    const UP: &[u8] = b"Upgrade";
+    let conn: &[&[u8]] = [&[][..], &[KA][..], &[CL][..], &[KA, UP][..]][take(4)];
+    let conn_before_location = take(2) == 1;
+    let cut_kind = take(4);
+    let mut head = RespHead::new(false, status);
+    head.fields.push(Field::new("Server", b"t"));
+    if conn_before_location {
+        for c in conn {
+            head.fields.push(Field::new("Connection", c));
+        }
+    }
+    head.fields.push(Field::new("Location", b"/moved"));
+    let mut after_loc = head.render().len() - 2;
+    if !conn_before_location {
+        for c in conn {
+            head.fields.push(Field::new("Connection", c));
+        }
+        after_loc = head.render().len() - 2;
+    }
+    head.fields.push(Field::new("X-Later", b"lost"));
+    let full = head.render();
+    let cut = match cut_kind {
+        0 => after_loc,
+        1 => after_loc + 4,
+        2 => full.len() - 2,
+        _ => full.len() - 1,
+    };
+    let cfg = ReqCfg::new(method, "http://h.test/x");
+    let mut f = match fast_to_recv(&cfg) {
+        Ok(f) => f,
+        Err(e) => return rec.fail("C10/setup", e),
+    };
+    f.allow_partial_redirect(true);
+    rec.call();
+    let r = f.try_response(&full[..cut]);
+    rec.ev(|| format!("{} allow_partial_redirect(true); try_response({:?}) -> {:?}", method, crate::json::esc(&full[..cut]), r.as_ref().map(|(n, r)| (*n, r.as_ref().map(|x| x.status().as_u16())))));
+    match r {
+        Ok((_, Some(_))) => {}
+        _ => {
+            rec.cov("partial-redirect/not-accepted");
+            return;
+        }
+    }
+    rec.cov(&format!("partial-redirect/accepted/own-connection-fields={}", conn.len()));
+    let (mc, why, mc2) = match f.proceed() {
+        Some(RecvResponseResult::Redirect(r)) => {
+            let a = r.must_close_connection();
+            let w = r.close_reason();
+            let c = r.proceed();
+            (a, w, c.must_close_connection())
+        }
+        Some(RecvResponseResult::Cleanup(c)) => (c.must_close_connection(), c.close_reason(), c.must_close_connection()),
+        Some(RecvResponseResult::RecvBody(_)) => return rec.fail("C10/partial-redirect-body", "a truncated redirect without framing fields went to the body state".into()),
+        None => return rec.fail("C10/partial-redirect-not-ready", "response returned but the flow cannot proceed".into()),
+    };
+    if !mc || !mc2 || why.is_none() {
+        rec.fail(
+            "C10/lost-boundary-offered-for-reuse",
+            format!(
+                "truncated redirect accepted by opt-in (cut at {} of {}, own Connection fields {:?}): must_close at Redirect={} at Cleanup={} reason={:?}",
+                cut,
+                full.len(),
+                conn.iter().map(|c| crate::json::esc(c)).collect::<Vec<_>>(),
+                mc,
+                mc2,
+                why
+            ),
+        );
+    }
+}
+
 const CELLS: u64 = 8 * 4 * 5 * 2 * 4 * 4 * 5;
 
 impl Property for P {
@@ -185,23 +270,27 @@ impl Property for P {
         vec![
             "a reason text is mapped to a condition by keyword; an unrecognised text is counted (statistics) and not judged".into(),
             "close-delimited is impossible on the redirect path by C06 (3xx without framing has no body), so those vectors only occur with exit path Cleanup".into(),
+            "the opt-in truncated-redirect workload relies on the 'in particular' clause: a connection whose message boundary was lost must close whatever Connection fields the truncated head carries; if the opt-in does not accept the head nothing is judged".into(),
         ]
     }
     fn workloads(&self, tier: Tier) -> Vec<Workload> {
         vec![
             Workload::new("oneshot", CELLS, true, "every cell, one-shot I/O"),
             Workload::new("scheduled", CELLS * tier.pick(2, 60), false, "every cell again under seeded random I/O schedules"),
+            Workload::new("partial-redirect-opt-in", 3 * 4 * 4 * 2 * 4, true, "allow_partial_redirect(true): truncated 3xx heads with their own Connection fields; the lost boundary must force close"),
         ]
     }
     fn run_case(&self, wl: &str, idx: u64, seed: u64, rec: &mut Rec) {
         if wl == "oneshot" {
             cell(idx, seed, 0, rec)
+        } else if wl == "partial-redirect-opt-in" {
+            partial_redirect_cell(idx, rec)
         } else {
             cell(idx % CELLS, seed, 1 + idx / CELLS, rec)
         }
     }
     fn floors(&self, _tier: Tier) -> Vec<(String, u64)> {
-        let mut v = vec![];
+        let mut v = vec![("partial-redirect/accepted/*".to_string(), 50)];
         // all 32 vectors must occur on the Cleanup path, the 16 without close-delimited on Redirect
         for m in 0..32u32 {
             let id: String = (0..5).map(|i| if m & (1 << i) != 0 { '1' } else { '0' }).collect();
